@@ -1,6 +1,7 @@
 SPECIFICATION Spec
 CONSTANTS
   Configs <- GenQuick
+  Fix = FALSE
   EmitGen = TRUE
   Seed = 1
 INVARIANTS Emit
